@@ -307,24 +307,37 @@ func Prelude(li *LangInfo, native bool) string {
 	return b.String()
 }
 
-// ListAxioms: each family is admitted only after the corresponding ground
-// obligation on the composite literals of the current tree was discharged by
-// evaluation (all=true admits everything: used by the vc debugging command).
-func ListAxioms(facts map[string]bool, all bool) string {
+// ListAxioms: each family is admitted, per language, only after the
+// corresponding ground obligation on that language's composite literal in the
+// current tree was discharged by evaluation (all=true admits everything: used
+// by the vc debugging command).
+func ListAxioms(li *LangInfo, facts map[string]bool, all bool) string {
 	var b strings.Builder
 	w := func(f string, a ...interface{}) { fmt.Fprintf(&b, f+"\n", a...) }
 	w("(assert (forall ((l Int) (x Str)) (! (and (<= (- 1) (f_widx l x)) (< (f_widx l x) 2048)) :pattern ((f_widx l x)))))")
 	w("(assert (forall ((l Int) (x Str)) (! (=> (>= (f_widx l x) 0) (and (f_supported l) (= (f_lst l (f_widx l x)) x))) :pattern ((f_widx l x)))))")
-	if all || facts["distinct"] {
-		// G2 distinctness: widx inverts lst
-		w("(assert (forall ((l Int) (i Int)) (! (=> (and (f_supported l) (<= 0 i) (< i 2048)) (= (f_widx l (f_lst l i)) i)) :pattern ((f_lst l i)))))")
+	okSet := func(f string) string {
+		var alts []string
+		for l, name := range li.Names {
+			if all || (facts[name+"/len"] && facts[name+"/"+f]) {
+				alts = append(alts, fmt.Sprintf("(= l %d)", l))
+			}
+		}
+		switch len(alts) {
+		case 0:
+			return "false"
+		case 1:
+			return alts[0]
+		}
+		return "(or " + strings.Join(alts, " ") + ")"
 	}
-	if all || facts["nows"] {
-		w("(assert (forall ((l Int) (i Int)) (! (=> (and (f_supported l) (<= 0 i) (< i 2048)) (f_nows (f_lst l i))) :pattern ((f_lst l i)))))")
-	}
-	if all || facts["stable"] {
-		w("(assert (forall ((l Int) (i Int)) (! (=> (and (f_supported l) (<= 0 i) (< i 2048)) (= (f_nfkd (f_lst l i)) (f_lst l i))) :pattern ((f_lst l i)))))")
-	}
+	w("(define-fun f_ok_distinct ((l Int)) Bool %s)", okSet("distinct"))
+	w("(define-fun f_ok_nows ((l Int)) Bool %s)", okSet("nows"))
+	w("(define-fun f_ok_stable ((l Int)) Bool %s)", okSet("stable"))
+	// G2 distinctness: widx inverts lst
+	w("(assert (forall ((l Int) (i Int)) (! (=> (and (f_ok_distinct l) (<= 0 i) (< i 2048)) (= (f_widx l (f_lst l i)) i)) :pattern ((f_lst l i)))))")
+	w("(assert (forall ((l Int) (i Int)) (! (=> (and (f_ok_nows l) (<= 0 i) (< i 2048)) (f_nows (f_lst l i))) :pattern ((f_lst l i)))))")
+	w("(assert (forall ((l Int) (i Int)) (! (=> (and (f_ok_stable l) (<= 0 i) (< i 2048)) (= (f_nfkd (f_lst l i)) (f_lst l i))) :pattern ((f_lst l i)))))")
 	return b.String()
 }
 
